@@ -44,6 +44,8 @@ type HdrRec struct {
 	TotalTxs  uint64 `json:"totalTxs"`
 	Results   string `json:"results"` // hash of the certificate results computed on this path ("" if the path does not compute them)
 	Digest    string `json:"digest"`  // digest of the full raw state scan after the block ("" before commit)
+	// the node executed the block and arrived at another header / other certificate results than the certified ones
+	Mismatch bool `json:"mismatch"`
 }
 
 type ChainLine struct {
@@ -68,6 +70,7 @@ func hdrRec(node, path string, h *lib.BlockHeader, res *lib.CertificateResult, e
 	r := HdrRec{Node: node, Path: path}
 	if err != nil {
 		r.Err = err.Error()
+		r.Mismatch = strings.Contains(r.Err, "unequal block hash") || strings.Contains(r.Err, "certificate results generated does not match")
 		return r
 	}
 	if h != nil {
@@ -260,6 +263,28 @@ func (m *multiSim) evidence(A *node, target uint64, who int) *bft.DoubleSignEvid
 	}
 	voteB.Signature = &lib.AggregateSignature{Signature: sig, Bitmap: mk.Bitmap()}
 	return &bft.DoubleSignEvidence{VoteA: voteA, VoteB: voteB}
+}
+
+// recertify: the same block and results under a certificate signed by other validators (still +2/3)
+func (m *multiSim) recertify(A *node, qc *lib.QuorumCertificate, signers []int) *lib.QuorumCertificate {
+	vs, err := A.c.FSM.LoadCommittee(1, qc.Header.RootHeight)
+	if err != nil {
+		return nil
+	}
+	out := &lib.QuorumCertificate{Header: qc.Header.Copy(), Block: qc.Block, BlockHash: qc.BlockHash, Results: qc.Results, ResultsHash: qc.ResultsHash, ProposerKey: qc.ProposerKey}
+	mk := vs.MultiKey.Copy()
+	sb := out.SignBytes()
+	for _, i := range signers {
+		if _, idx, e := vs.GetValidatorAndIdx(A.valKeys[i].PublicKey().Bytes()); e == nil {
+			_ = mk.AddSigner(A.valKeys[i].Sign(sb), idx)
+		}
+	}
+	sig, e := mk.AggregateSignatures()
+	if e != nil {
+		return nil
+	}
+	out.Signature = &lib.AggregateSignature{Signature: sig, Bitmap: mk.Bitmap()}
+	return out
 }
 
 func (n *node) proposeWith(be *bft.ByzantineEvidence) (*proposal, lib.ErrorI) {
@@ -622,7 +647,17 @@ func (m *multiSim) syncFresh() {
 		}
 		orig, _ := A.c.FSM.LoadBlock(h)
 		store.VerifPurgeBlockCache()
-		_, e = E.c.HandlePeerBlock(&lib.BlockMessage{ChainId: 1, BlockAndCertificate: qc}, false)
+		// any +2/3 certificate of a block is valid: the peer that serves height h may hold another version than the one the next
+		// leader put into its header (here: without validator 2's signature). The node is syncing until the last block.
+		syncing := h+1 < top
+		E.c.Syncing().Store(syncing)
+		if syncing && m.rng.Intn(2) == 0 {
+			if alt := m.recertify(A, qc, []int{0, 1, 3}); alt != nil {
+				qc = alt
+				line.Note = "alternate-certificate"
+			}
+		}
+		_, e = E.c.HandlePeerBlock(&lib.BlockMessage{ChainId: 1, BlockAndCertificate: qc}, syncing)
 		var ge error
 		var hdr *lib.BlockHeader
 		if e != nil {
